@@ -31,7 +31,7 @@ class Run(object):
         if sum(1 for v in self.violations if v['check'] == group) >= 3: return
         self.violations.append({'check': group, 'kind': kind, 'function': fn, 'case': case, 'expected': expected, 'observed': observed})
 
-    def guard(self, group, kind, case_fn, thunk, fn=None, timeout=10):
+    def guard(self, group, kind, case_fn, thunk, fn=None, timeout=10, timeout_ok=False):
         """run thunk (-> (ok, expected, observed, key)) with a wall-clock limit; exceptions are violations of the
         default contract 'no exception escapes'"""
         def on_alarm(*_): raise Timeout()
@@ -39,6 +39,8 @@ class Run(object):
         try:
             ok, expected, observed, key = thunk()
         except Timeout:
+            if timeout_ok:
+                self.groups.setdefault(group + ':skipped-slow', {'n': 0})['n'] += 1; return True
             ok, expected, observed, key = False, 'terminates', 'no result after %d s' % timeout, None
         except Exception as e:
             ok, expected, observed, key = False, 'no exception', '%s: %s' % (type(e).__name__, e), None
